@@ -4,6 +4,8 @@
 # Writes <seed-dir>/confirm.log and prints one summary line.
 set -u
 export GOFLAGS=-mod=mod GOPROXY=off
+# scratch worktrees have their own paths, so their builds would only bloat the main cache
+export GOCACHE=/tmp/confirm-gocache
 S=$(readlink -f "$1"); ID=$(basename "$S")
 WT=/tmp/confirm-$ID
 git -C /repo worktree remove --force $WT >/dev/null 2>&1
